@@ -782,8 +782,8 @@ func init() {
 	vfRegister(&vfeng.Check{
 		ID:    "C05",
 		Level: "model_checking",
-		Rule:  "case-twin users (normalisation disabled): CLI token and TOTP code of one presented in a session of the other; explicit-state BFS with canonical-state deduplication over histories of two users and three cookie jars on the real handlers, one search per second-factor family, for TOTP and bootstrap OTP including a primary store that answers reads but refuses writes (Symantec VIP OTP+push against a stateful fake, local TOTP, U2F with real soft tokens incl. the WebAuthn login ceremony for the same tokens, bootstrap OTP, CLI token); the adversary attaches any cookie/push cookie it ever obtained to any request, or two session cookies of different users in either order; after every transition each Set-Cookie is decoded and every gained factor bit must be justified by ground truth (whose code / push / device / value it was, freshness, first use); canonical state = profiles' replay counters, cookie pools as (subject, level), push transactions (owner, approved, expired), challenges, rate-limit ages, clock",
-		Assumptions: []string{"the victim approves only pushes on her own device; the fake VIP lets only the owner approve", "the adversary holds at most one password session per user plus its upgrades (re-logins differ only in issue time)", "WebAuthn registration / FIDO2-only credentials and Okta flows are not driven (CBOR attestation and an Okta backend are not modelled); WebAuthn LOGIN with U2F-registered tokens is"},
+		Rule:  "case-twin users (normalisation disabled): CLI token and TOTP code of one presented in a session of the other; Okta family (password backend = Okta, stateful fake Okta): BFS over login / OTP with either user's code / push start / device approval / poll / clock steps for users bob and bob@partner.example, every verification the daemon asks Okta for in a session of X must be on X's own live state token and every gained Okta bit must be backed by one; explicit-state BFS with canonical-state deduplication over histories of two users and three cookie jars on the real handlers, one search per second-factor family, for TOTP and bootstrap OTP including a primary store that answers reads but refuses writes (Symantec VIP OTP+push against a stateful fake, local TOTP, U2F with real soft tokens incl. the WebAuthn login ceremony for the same tokens, bootstrap OTP, CLI token); the adversary attaches any cookie/push cookie it ever obtained to any request, or two session cookies of different users in either order; after every transition each Set-Cookie is decoded and every gained factor bit must be justified by ground truth (whose code / push / device / value it was, freshness, first use); canonical state = profiles' replay counters, cookie pools as (subject, level), push transactions (owner, approved, expired), challenges, rate-limit ages, clock",
+		Assumptions: []string{"the victim approves only pushes on her own device; the fake VIP lets only the owner approve", "the adversary holds at most one password session per user plus its upgrades (re-logins differ only in issue time)", "WebAuthn registration / FIDO2-only credentials are not driven (CBOR attestation is not modelled); WebAuthn LOGIN with U2F-registered tokens is", "Okta family: Okta is a stateful fake (state tokens, expiry, pushes sent/approved are its ground truth; it does not enforce expiry itself); users bob and bob@partner.example under a user-name filter that strips another domain; at most two password logins per user and two 31 s clock steps"},
 		Bounds: func(tier string) map[string]interface{} {
 			m := map[string]interface{}{}
 			for _, f := range c05Families {
@@ -795,6 +795,21 @@ func init() {
 		Run: func(c *vfeng.Ctx) {
 			if c.Shard == c.NShards-1 {
 				c05CaseTwins(c)
+			}
+			// the Okta family: split over the two lightest shards by first operation
+			if c.NShards == 1 || c.Shard == c.NShards-2 || c.Shard == c.NShards-3 {
+				d := 5
+				if c.Thorough() {
+					d = 7
+				}
+				osub := &vfeng.Ctx{Check: c.Check, Tier: c.Tier, Seed: c.Seed, Shard: 0, NShards: 1, Res: c.Res, Deadline: c.Deadline}
+				if c.NShards > 1 {
+					osub.Shard, osub.NShards = c.NShards-2-c.Shard, 2
+				}
+				st := vfeng.Explore(osub, &c05OktaSys{}, d, 0)
+				c.Count("states_okta", int64(st.States))
+				c.Count("transitions_okta", int64(st.Transitions))
+				c.Count("maxdepth_okta", int64(st.MaxDepth))
 			}
 			// 15 shards = 5 families x 3 sub-shards (by first operation)
 			fam := c05Families[c.Shard%len(c05Families)]
@@ -828,6 +843,11 @@ func init() {
 			}
 			// the family is recognisable from the operations
 			fam := "vip"
+			for _, op := range h.History {
+				if strings.HasPrefix(op, "okta") {
+					return vfeng.ReplayHistory(&c05OktaSys{}, h.History)
+				}
+			}
 			for _, op := range h.History {
 				switch {
 				case strings.HasPrefix(op, "totp("):
